@@ -21,6 +21,7 @@ type World struct {
 	ModulePfx     []string // package path prefixes considered "module" code
 	Contracts     map[string]*Contract
 	CheckOverflow bool
+	InlineSmall   bool
 
 	FieldFact      func(e *FuncEnc, structT types.Type, field int, base, val string) string
 	MapValueFact   func(e *FuncEnc, mt *types.Map, val, has string) string
